@@ -147,6 +147,20 @@ func mask(b []byte, bits int) []byte {
 	return out
 }
 
+func mask4(ip net.IP, bits int) []byte {
+	if ip == nil {
+		return make([]byte, 4)
+	}
+	return mask(ip, bits)
+}
+
+func mask16(ip net.IP, bits int) []byte {
+	if ip == nil {
+		return make([]byte, 16)
+	}
+	return mask(ip, bits)
+}
+
 func hexes(l [][]byte) []string {
 	var out []string
 	for _, b := range l {
@@ -477,6 +491,9 @@ func (g *G) Option(code int, depth int) (dhcpv6.Option, *tree.Node) {
 		if R.IntN(2) == 0 {
 			ip4, ip6 = net.IP(mask(ip4, p4l)), net.IP(mask(ip6, p6l))
 		}
+		if R.IntN(8) == 0 { // unset addresses are written as zeros
+			ip4, ip6 = nil, nil
+		}
 		ea := uint8(R.UintN(256))
 		w := R.IntN(2) == 0
 		o := &dhcpv6.Opt4RDMapRule{Prefix4: net.IPNet{IP: ip4, Mask: net.CIDRMask(p4l, 32)}, Prefix6: net.IPNet{IP: ip6, Mask: net.CIDRMask(p6l, 128)}, EABitsLength: ea, WKPAuthorized: w}
@@ -484,7 +501,7 @@ func (g *G) Option(code int, depth int) (dhcpv6.Option, *tree.Node) {
 		if w {
 			wv = 1
 		}
-		return o, tree.N("4rdmap").U("p4len", uint64(p4l)).U("p6len", uint64(p6l)).U("ea", uint64(ea)).U("wkp", wv).B("p4", mask(ip4, p4l)).B("p6", mask(ip6, p6l))
+		return o, tree.N("4rdmap").U("p4len", uint64(p4l)).U("p6len", uint64(p6l)).U("ea", uint64(ea)).U("wkp", wv).B("p4", mask4(ip4, p4l)).B("p6", mask16(ip6, p6l))
 	case 99:
 		o := &dhcpv6.Opt4RDNonMapRule{HubAndSpoke: R.IntN(2) == 0, DomainPMTU: uint16(R.UintN(65536))}
 		hs, tp, tc := uint64(0), uint64(0), uint64(0)
